@@ -12,7 +12,7 @@ from glue.core.util import split_component_view
 from glue.core.registry import Registry
 from glue.core.exceptions import IncompatibleAttribute
 from glue.core.message import SubsetDeleteMessage, SubsetUpdateMessage
-from glue.core.decorators import memoize
+from glue.core.decorators import memoize, clear_cache
 from glue.core.visual import VisualAttributes
 from glue.config import settings
 from glue.utils import (categorical_ndarray, combine_slices, floodfill, iterate_chunks,
@@ -24,7 +24,8 @@ __all__ = ['Subset', 'SubsetState', 'RoiSubsetStateNd', 'RoiSubsetState', 'Categ
            'OrState', 'AndState', 'XorState', 'InvertState', 'MaskSubsetState', 'CategorySubsetState',
            'ElementSubsetState', 'InequalitySubsetState', 'combine_multiple',
            'CategoricalMultiRangeSubsetState', 'CategoricalROISubsetState2D',
-           'SliceSubsetState', 'roi_to_subset_state', 'MultiOrState']
+           'SliceSubsetState', 'roi_to_subset_state', 'MultiOrState',
+           'clear_mask_caches']
 
 
 OPSYM = {operator.ge: '>=', operator.gt: '>',
@@ -494,6 +495,23 @@ class SubsetState(object):
               returns='isinstance(SubsetState)')
     def __xor__(self, other_state):
         return XorState(self, other_state)
+
+
+def clear_mask_caches():
+    """
+    Drop the memoized results of ``to_mask`` for all subset states.
+
+    The caches are keyed on the identity of the state, the data and the view,
+    so they have to be dropped whenever the values of a dataset, the links
+    between datasets or the region behind a state change. This covers every
+    subclass of :class:`SubsetState`, since a cached composite state hides
+    the states it is built from.
+    """
+    classes = [SubsetState]
+    while classes:
+        cls = classes.pop()
+        clear_cache(cls.__dict__.get('to_mask'))
+        classes.extend(cls.__subclasses__())
 
 
 class RoiSubsetStateNd(SubsetState):
